@@ -145,6 +145,10 @@ fn open_pty() -> Option<(OwnedFd, OwnedFd)> {
 pub type Fifos = Vec<(PathBuf, Vec<u8>)>;
 
 pub fn run_xt(bin: Bin, args: &[OsString], cwd: &Path, stdin: StdinSpec, stdout: StdoutSpec, fifos: Fifos) -> Res {
+    run_xt_limit(bin, args, cwd, stdin, stdout, fifos, 60)
+}
+
+pub fn run_xt_limit(bin: Bin, args: &[OsString], cwd: &Path, stdin: StdinSpec, stdout: StdoutSpec, fifos: Fifos, limit_secs: u64) -> Res {
     let mut cmd = Command::new(bin.path());
     cmd.args(args).current_dir(cwd).stderr(Stdio::piped());
     cmd.env_clear();
@@ -264,7 +268,7 @@ pub fn run_xt(bin: Bin, args: &[OsString], cwd: &Path, stdin: StdinSpec, stdout:
         match child.try_wait() {
             Ok(Some(s)) => break Some(s),
             Ok(None) => {
-                if start.elapsed() > Duration::from_secs(60) {
+                if start.elapsed() > Duration::from_secs(limit_secs) {
                     let _ = child.kill();
                     let _ = child.wait();
                     timed_out = true;
